@@ -94,6 +94,24 @@ fn count_kinds(d: &DiffSet, obs: &mut Obs) -> (usize, bool) {
 fn inverse_law(case: &PairCase, obs: &mut Obs) -> PropResult {
 	let qa = to_quill::<2, Ns>(&case.a, case.order).map_err(|e| format!("harness: {e:#}"))?;
 	let qb = to_quill::<2, Ns>(&case.b, case.order.rotate_left(7)).map_err(|e| format!("harness: {e:#}"))?;
+	// the comment of the set itself (the plain model has no slot for it): none / X / Y on either side, from the order seed
+	let top = |sel: u64| match sel % 3 {
+		0 => None,
+		1 => Some(quill::tree::mappings::JavadocMapping("about this set".to_string())),
+		_ => Some(quill::tree::mappings::JavadocMapping("another\ncomment".to_string())),
+	};
+	let (mut qa, mut qb) = (qa, qb);
+	let mix = fnv64(format!("{} {} {}", case.order, case.a.classes.len(), case.b.classes.len()).as_bytes());
+	let (ta, tb) = (top(mix >> 5), top(mix >> 11));
+	qa.javadoc = ta.clone();
+	qb.javadoc = tb.clone();
+	obs.label(match (&ta, &tb) {
+		(None, None) => "set_comment:neither",
+		(Some(_), None) => "set_comment:removed",
+		(None, Some(_)) => "set_comment:added",
+		(Some(x), Some(y)) if x == y => "set_comment:kept",
+		_ => "set_comment:edited",
+	});
 	let refdiff = refops::diff(&case.a, &case.b);
 	let d = match MappingsDiff::diff(&qa, &qb) {
 		Ok(d) => d,
@@ -109,6 +127,9 @@ fn inverse_law(case: &PairCase, obs: &mut Obs) -> PropResult {
 	// apply(diff(A,B), A) == B
 	let applied = d.apply_to::<2, Ns, Ns>(qa.clone(), &case.a.ns[1]).map_err(|e| format!("apply(diff(A,B), A) was refused: {e:#}\ndiff = {dm:?}"))?;
 	let back = from_quill(&applied).map_err(|e| format!("apply result inconsistent: {e:#}"))?;
+	if applied.javadoc != tb {
+		return Err(format!("apply(diff(A,B), A) carries the set comment {:?}, B has {:?} (A had {:?}; the diff says {:?})", applied.javadoc, tb, ta, d.javadoc));
+	}
 	if back != case.b {
 		return Err(format!("apply(diff(A,B), A) != B\nA = {:?}\nB = {:?}\ngot {:?}\ndiff = {dm:?}", case.a, case.b, back));
 	}
@@ -123,6 +144,10 @@ fn inverse_law(case: &PairCase, obs: &mut Obs) -> PropResult {
 	}
 	let applied2 = d2.apply_to::<2, Ns, Ns>(qa, &case.a.ns[1]).map_err(|e| format!("apply(read(text(diff(A,B))), A) was refused: {e:#}\n{txt}"))?;
 	let back2 = from_quill(&applied2).map_err(|e| format!("apply result inconsistent: {e:#}"))?;
+	// the .tinydiff text has no line for the comment of the set, so the diff read from text does not touch it
+	if applied2.javadoc != ta {
+		return Err(format!("a diff without an action for the set comment changed it from {:?} to {:?}", ta, applied2.javadoc));
+	}
 	if back2 != case.b {
 		return Err(format!("apply(read(text(diff(A,B))), A) != B\nB = {:?}\ngot {:?}\ntext:\n{txt}", case.b, back2));
 	}
@@ -272,8 +297,46 @@ fn apply_generic<const N: usize>(case: &ApplyCase, obs: &mut Obs) -> PropResult 
 	let q = to_quill::<N, Ns>(&case.m, case.order).map_err(|e| format!("harness: {e:#}"))?;
 	let qd = diff_to_quill(&case.d, case.order.rotate_left(11)).map_err(|e| format!("harness: {e:#}"))?;
 	let mut notes = ApplyNotes::default();
-	let expected = refops::apply(&case.d, &case.m, case.ns, &mut notes);
+	let mut expected = refops::apply(&case.d, &case.m, case.ns, &mut notes);
+	// the comment of the set itself: target none / X, action none / add / remove / edit, stated old value matching or not
+	let (mut q, mut qd) = (q, qd);
+	let sel = fnv64(format!("{} {} {} {}", case.order, case.ns, case.m.classes.len(), case.d.classes.keys().next().map(|k| k.len()).unwrap_or(0)).as_bytes()) >> 7;
+	let target_doc: Option<String> = if sel % 2 == 0 { None } else { Some("about this set".to_string()) };
+	let stated = if (sel >> 1) % 3 == 0 { "something else".to_string() } else { "about this set".to_string() };
+	let act = match (sel >> 3) % 8 {
+		0 => Act::Add("new comment".to_string()),
+		1 => Act::Remove(stated),
+		2 => Act::Edit(stated, "new comment".to_string()),
+		3 => Act::Edit(stated.clone(), stated),
+		_ => Act::None,
+	};
+	q.javadoc = target_doc.clone().map(quill::tree::mappings::JavadocMapping);
+	qd.javadoc = match &act {
+		Act::None => quill::tree::mappings_diff::Action::None,
+		Act::Add(b) => quill::tree::mappings_diff::Action::Add(quill::tree::mappings::JavadocMapping(b.clone())),
+		Act::Remove(a) => quill::tree::mappings_diff::Action::Remove(quill::tree::mappings::JavadocMapping(a.clone())),
+		Act::Edit(a, b) => quill::tree::mappings_diff::Action::Edit(quill::tree::mappings::JavadocMapping(a.clone()), quill::tree::mappings::JavadocMapping(b.clone())),
+	};
+	let expected_doc = refops::apply_opt(&act, &target_doc, "comment of the set");
+	obs.label(format!(
+		"set_comment:{}:{}",
+		match &act {
+			Act::None => "none",
+			Act::Add(_) => "add",
+			Act::Remove(_) => "remove",
+			Act::Edit(..) => "edit",
+		},
+		if expected_doc.is_ok() { "consistent" } else { "inconsistent" }
+	));
+	if let (Err(why), Applied::Ok(_)) = (&expected_doc, &expected) {
+		expected = Applied::Refuse(why.clone());
+	}
 	let got = qd.apply_to::<N, Ns, Ns>(q, &case.m.ns[case.ns]);
+	if let (Ok(want), Applied::Ok(_), Ok(r)) = (&expected_doc, &expected, &got) {
+		if r.javadoc.as_ref().map(|j| &j.0) != want.as_ref() {
+			return Err(format!("the comment of the set is {:?} after applying {act:?} to {target_doc:?}, expected {want:?}", r.javadoc));
+		}
+	}
 	// classify what the diff exercises (re-derive the tags from diff and target)
 	let mut tags = Vec::new();
 	classify(&case.d, &case.m, case.ns, &mut tags);
